@@ -282,12 +282,37 @@ def del_block(blocks, bid):
         del blocks[bid]
 
 
+class _SeqTimeout(BaseException):
+    """not an Exception: the per-operation handler must not swallow it"""
+
+
 def impl_run_ops(kbpk, ops):
     """Execute an op list on one reused KeyBlock (wrap ops are ("W", key, mask):
     the real os.urandom is used).  Returns (header text, [outcome text])."""
     kb = tr31.KeyBlock(kbpk)
     outs = []
     cur = kbpk
+    # a sequence that does not end within 60 s (an implementation waiting on a lock it left behind) is cut short
+    import signal
+    import threading
+    timed = threading.current_thread() is threading.main_thread()
+    if timed:
+        def _cut(signum, frame):
+            raise _SeqTimeout()
+        old_handler = signal.signal(signal.SIGALRM, _cut)
+        signal.setitimer(signal.ITIMER_REAL, 60.0)
+    try:
+        return _impl_run_ops_body(kb, cur, ops, outs)
+    except _SeqTimeout:
+        outs.append("err:Other:Timeout")
+        return show_header(kb.header), outs
+    finally:
+        if timed:
+            signal.setitimer(signal.ITIMER_REAL, 0)
+            signal.signal(signal.SIGALRM, old_handler)
+
+
+def _impl_run_ops_body(kb, cur, ops, outs):
     for op in ops:
         k = op[0]
         if kb.kbpk != cur or type(kb.kbpk) is not type(cur):
